@@ -197,6 +197,74 @@ fn build_case(out: &mut Out, scratch: &str, name: &str, serde: bool, tokio: bool
     let _ = enc_str;
 }
 
+/// Programs whose only trigger of a feature sits at one particular syntactic position.
+fn trigger_programs() -> Vec<(String, String)> {
+    let mut v = Vec::new();
+    let js = "json_stringify(d)";
+    let wrap = |body: &str| format!("def main() -> None:\n    d = {{\"k\": 1}}\n    a = 1\n{body}");
+    let positions: Vec<(&str, String)> = vec![
+        ("stmt", wrap(&format!("    print({js})\n"))),
+        ("assign", wrap(&format!("    s = {js}\n    print(s)\n"))),
+        ("return", format!("def f(d: Dict[str, int]) -> str:\n    return {js}\n\ndef main() -> None:\n    print(f({{\"k\": 1}}))\n")),
+        ("if-then", wrap(&format!("    if a > 0:\n        print({js})\n"))),
+        ("else", wrap(&format!("    if a > 0:\n        print(1)\n    else:\n        print({js})\n"))),
+        ("elif", wrap(&format!("    if a > 1:\n        print(1)\n    elif a > 0:\n        print({js})\n    else:\n        print(2)\n"))),
+        ("if-cond", wrap(&format!("    if {js} == \"x\":\n        print(1)\n"))),
+        ("while-body", wrap(&format!("    mut n = 0\n    while n < 2:\n        print({js})\n        n += 1\n"))),
+        ("while-cond", wrap(&format!("    mut n = 0\n    while len({js}) > 100 and n < 2:\n        n += 1\n"))),
+        ("for-iter", wrap(&format!("    for ch in [{js}]:\n        print(ch)\n"))),
+        ("elif-cond", wrap(&format!("    if a > 1:\n        print(1)\n    elif {js} == \"x\":\n        print(2)\n"))),
+        ("for-body", wrap(&format!("    for i in range(2):\n        print({js})\n"))),
+        ("match-arm", wrap(&format!("    match a:\n        1 => print({js})\n        _ => print(0)\n"))),
+        ("call-arg", wrap(&format!("    print(len({js}))\n"))),
+        ("binary", wrap(&format!("    print(\"x\" + {js})\n"))),
+        ("method", format!("class K:\n    v: int\n\n    def dump(self, d: Dict[str, int]) -> str:\n        return {js}\n\ndef main() -> None:\n    print(K(v=1).dump({{\"k\": 1}}))\n")),
+        ("nested-if", wrap(&format!("    if a > 0:\n        if a > 1:\n            print(0)\n        else:\n            print({js})\n"))),
+        ("list-elem", wrap(&format!("    xs = [{js}]\n    print(xs[0])\n"))),
+    ];
+    for (pos, src) in positions {
+        v.push((format!("serde:{pos}"), src));
+    }
+    v.push(("async:fn".into(), "async def w() -> int:\n    return 1\n\ndef main() -> None:\n    pass\n".into()));
+    v.push(("async:class-method".into(), "class K:\n    v: int\n\n    async def w(self) -> int:\n        return 1\n\ndef main() -> None:\n    pass\n".into()));
+    v.push(("async:model-method".into(), "model M:\n    v: int\n\n    async def w(self) -> int:\n        return 1\n\ndef main() -> None:\n    pass\n".into()));
+    v.push(("web:route-only".into(), "@route(\"/\")\ndef index() -> str:\n    return \"hi\"\n\ndef main() -> None:\n    pass\n".into()));
+    v.push(("web:import-only".into(), "from web import App\n\ndef main() -> None:\n    pass\n".into()));
+    v.push(("web+tokio-import".into(), "from web import App\nimport rust::tokio\nfrom rust::serde_json import Value\n\ndef main() -> None:\n    pass\n".into()));
+    v.push(("serde+serde-import".into(), "from rust::serde import Serialize\nimport rust::serde_json\n\n@derive(Serialize)\nmodel Item:\n    name: str\n\ndef main() -> None:\n    pass\n".into()));
+    v.push(("async+tokio-import".into(), "from rust::tokio import spawn\n\nasync def w() -> int:\n    return 1\n\ndef main() -> None:\n    pass\n".into()));
+    v
+}
+
+fn trigger_case(out: &mut Out, scratch: &str, name: &str, src: &str) {
+    let ws = format!("{scratch}/c15b/ws");
+    let outdir = format!("{scratch}/c15b/out");
+    let _ = std::fs::remove_dir_all(format!("{scratch}/c15b"));
+    std::fs::create_dir_all(&ws).expect("mkdir");
+    let main_path = format!("{ws}/app.incn");
+    std::fs::write(&main_path, src).expect("write");
+    let res = catch(|| incan::cli::commands::build_file(&main_path, Some(&outdir)));
+    let status = match &res {
+        Ok(Ok(_)) => "built".to_string(),
+        Ok(Err(e)) => format!("refused:{}", e.message.lines().next().unwrap_or("").chars().take(80).collect::<String>()),
+        Err(m) => format!("panic {m}"),
+    };
+    let manifest = read_manifest(&format!("{outdir}/Cargo.toml")).unwrap_or_else(|e| e);
+    let cands: Vec<String> = ["serde", "serde_json", "tokio", "axum", "incan_stdlib", "incan_derive"].iter().map(|s| s.to_string()).collect();
+    let refs = referenced_crates(&outdir, &cands);
+    // what the program uses, derived from the scenario name: flags = (serde, async, web), crates = explicit rust:: imports
+    let (flags, crates) = match name {
+        n if n.starts_with("serde:") => ("100", "-"),
+        n if n.starts_with("async:") => ("010", "-"),
+        "web:route-only" | "web:import-only" => ("001", "-"),
+        "web+tokio-import" => ("001", "tokio,serde_json"),
+        "serde+serde-import" => ("100", "serde,serde_json"),
+        "async+tokio-import" => ("010", "tokio"),
+        _ => ("000", "-"),
+    };
+    out.case(&format!("c15 trigger app {flags} {crates} {name} 0"), &format!("{status} | {manifest} | refs={}", if refs.is_empty() { "-".to_string() } else { refs.join(",") }));
+}
+
 pub fn run(out: &mut Out, tier: &str, seed: u64, scratch: &str) {
     let mut rng = Rng::new(seed);
     let thorough = tier == "thorough";
@@ -259,6 +327,9 @@ pub fn run(out: &mut Out, tier: &str, seed: u64, scratch: &str) {
     build_case(out, scratch, "app", false, true, false, &["serde_json", "tokio"], false, 0);
     for name in ["my-prog", "my_prog", "a1", "prog2", "x"] {
         build_case(out, scratch, name, true, false, false, &["rand"], false, 0);
+    }
+    for (name, src) in trigger_programs() {
+        trigger_case(out, scratch, &name, &src);
     }
     unsafe { std::env::set_var("PATH", path) };
     let _ = std::fs::remove_dir_all(format!("{scratch}/c15a"));
